@@ -245,3 +245,56 @@ def token_rule(run, f, rid):
         run.ok(rid, LOOP + "::token/thread-path", "hash(pthread_self(), discriminant(syscall))")
     else:
         run.fail(rid, LOOP + "::token/thread-path", b.loc(), "the thread-path token must be derived from the calling thread's identity (pthread_self) and the syscall (hash inputs: %s)" % sorted(c.rsplit("::", 1)[1] for c in srcs))
+
+
+# ------------------------------------------------------------------ one completion per submission
+# The wait table has ONE slot per token and the token is per caller, not per call: the dispatch loop takes every
+# completion that carries a token for the completion of whatever call currently waits under it.  That is sound only if
+# each submission posts exactly one completion.  io_uring opcodes that post more than one (zero-copy sends: result +
+# buffer-release notification; multishot accept/recv/poll/timeout: one per event) need an extra protocol (skip the
+# F_NOTIF / follow F_MORE) that adapt_io_uring does not have.
+ONE_COMPLETION = {
+    "Accept", "AsyncCancel", "Close", "Connect", "EpollCtl", "Fsync", "MkDirAt", "OpenAt", "PollAdd", "PollRemove", "Read", "Readv", "Recv",
+    "RecvMsg", "RenameAt", "Send", "SendMsg", "Shutdown", "Socket", "Timeout", "TimeoutRemove", "TimeoutUpdate", "Write", "Writev",
+}
+MANY_COMPLETIONS = {
+    "SendZc": "posts the result and, later, a second completion (IORING_CQE_F_NOTIF, result 0) when the buffer is released",
+    "SendMsgZc": "posts the result and, later, a second completion (IORING_CQE_F_NOTIF, result 0) when the buffers are released",
+    "AcceptMulti": "multishot: one completion per accepted connection", "RecvMulti": "multishot: one completion per datagram/chunk",
+    "RecvMsgMulti": "multishot: one completion per message", "ReadMulti": "multishot: one completion per read",
+}
+# builder options that turn a one-completion opcode into a multishot one
+MULTI_OPTIONS = {"PollAdd::multi": "multishot poll: one completion per event", "Timeout::flags": "may carry IORING_TIMEOUT_MULTISHOT",
+                 "Recv::ioprio": "may carry IORING_RECV_MULTISHOT", "Accept::ioprio": "may carry IORING_ACCEPT_MULTISHOT"}
+
+
+def one_completion_rule(run, f, rid):
+    run.rule(rid, "every opcode the operator submits posts exactly one completion per submission (the wait table has one slot per token and no F_MORE/F_NOTIF protocol)", floor=20, template="T9 (modelled opcode table, fail closed)")
+    seen = 0
+    for b in f.bodies:
+        if b.kind == "Promoted" or not (b.npath.startswith(OP + "::") or b.npath.startswith(OP.rsplit("::", 1)[0] + "::")):
+            continue
+        per = {}
+        for (x, t) in b.calls():
+            c = norm(t.get("callee") or "")
+            if not c.startswith("io_uring::opcode::"):
+                continue
+            op, meth = c.split("::")[2], c.split("::")[3] if len(c.split("::")) > 3 else ""
+            per.setdefault(op, set()).add(meth)
+        for op, meths in sorted(per.items()):
+            if "new" not in meths and "build" not in meths:
+                continue
+            seen += 1
+            key = b.npath + "/" + op
+            if op in MANY_COMPLETIONS:
+                run.fail(rid, key, b.loc(), "Operator::%s submits io_uring opcode %s, which %s; the second completion carries the same user_data and is taken for the completion of the caller's NEXT call (that call returns its result while its own submission is still in flight)" % (b.npath.rsplit("::", 1)[1], op, MANY_COMPLETIONS[op]))
+            elif op not in ONE_COMPLETION:
+                run.fail(rid, key, b.loc(), "Operator::%s submits io_uring opcode %s, which is not in the table of opcodes known to post exactly one completion: add it to the table after checking the kernel's contract" % (b.npath.rsplit("::", 1)[1], op))
+            else:
+                multi = [m for m in meths if "%s::%s" % (op, m) in MULTI_OPTIONS]
+                if multi:
+                    run.fail(rid, key, b.loc(), "Operator::%s sets %s on opcode %s (%s): more than one completion per submission" % (b.npath.rsplit("::", 1)[1], multi, op, MULTI_OPTIONS["%s::%s" % (op, multi[0])]))
+                else:
+                    run.ok(rid, key, "one completion")
+    if not seen:
+        run.fail(rid, "no-opcode-site", "core/src/net/operator/linux/mod.rs", "no io_uring opcode construction found in the operator: the rule has nothing to judge")
